@@ -14,8 +14,8 @@ Reading of the sentence fixed here (docs/C15.md):
   `Regenerate` continues the session (data and absolute deadline) under a new id, `Reset` starts a new
   one (empty, new absolute deadline);
 * Fresh = the session's id was generated during this request;
-* domain: a Store-API handler loads the request's session at most once (`store.Get` first), and does
-  not `Save` a session it has destroyed.
+* domain: a Store-API handler calls `store.Get` at most once per request, and does not `Save` a
+  session it has destroyed (the oracle answers `outside-domain: …` for such a history).
 -/
 namespace C15
 open B
@@ -56,6 +56,7 @@ structure SReq where
   mw : Option View := none
   mwDestroyed : Bool := false
   cur : SCur := .none
+  loaded : Bool := false         -- `store.Get` has been called in this request
 
 /-- observation of one request -/
 structure Obs where
@@ -66,6 +67,10 @@ structure Obs where
   keys : List Bytes              -- live storage keys after the request
   status : Nat := 200
   deriving Repr, DecidableEq
+
+/-- what the harness records of a served request -/
+def Resp.toObs (r : Resp) : Obs :=
+  { acts := r.acts, outCk := r.outCk, outHd := r.outHd, gens := r.gens, keys := r.keys, status := 200 }
 
 def presentedId (cfg : Cfg) (q : Req) : Bytes :=
   if q.ck ≠ [] then q.ck
@@ -118,15 +123,15 @@ def sortBytes (l : List Bytes) : List Bytes :=
   l.foldr ins []
 
 /-- one handler action: check its observation, update the abstract state -/
-def specAct (cfg : Cfg) (viaMw : Bool) (first : Bool) (q : Req) (r : SReq) (a : Act) (o : AObs) : Except String SReq :=
+def specAct (cfg : Cfg) (viaMw : Bool) (q : Req) (r : SReq) (a : Act) (o : AObs) : Except String SReq :=
   match a with
   | .storeGet =>
     if viaMw then (if o = .err .loaded then .ok r else .error "store.Get-behind-middleware")
-    else if !first then .error "outside-domain: second session load"
+    else if r.loaded then .error "outside-domain: second session load"
     else do
       let (r, v) ← loadView cfg r (presentedId cfg q)
       if o ≠ .ok then throw "store.Get-failed"
-      pure { r with cur := .other v }
+      pure { r with cur := .other v, loaded := true }
   | .byID id =>
     match (if id = [] then none else lookup r.s.sessions id) with
     | some e =>
@@ -183,35 +188,37 @@ def specAct (cfg : Cfg) (viaMw : Bool) (first : Bool) (q : Req) (r : SReq) (a : 
       | .release => if r.cur = .mw then .ok r else .ok { r with cur := .none }
       | _ => .error "observation-shape"
 
-def specScript (cfg : Cfg) (viaMw : Bool) (q : Req) : Bool → SReq → List Act → List AObs → Except String SReq
-  | _, r, [], [] => .ok r
-  | first, r, a :: as, o :: os => do
-    let r ← specAct cfg viaMw first q r a o
-    specScript cfg viaMw q false r as os
-  | _, _, _, _ => .error "observation-shape"
+def specScript (cfg : Cfg) (viaMw : Bool) (q : Req) : SReq → List Act → List AObs → Except String SReq
+  | r, [], [] => .ok r
+  | r, a :: as, o :: os => do
+    let r ← specAct cfg viaMw q r a o
+    specScript cfg viaMw q r as os
+  | _, _, _ => .error "observation-shape"
 
 def sameSet (a b : List Bytes) : Bool := sortBytes a = sortBytes b
 
-/-- one request -/
-def specReq (cfg : Cfg) (s : SpecSt) (q : Req) (o : Obs) : Except String SpecSt := do
-  if o.status ≠ 200 then throw "request-failed"
-  let r : SReq := { s := s, gens := o.gens }
-  let r ← (if q.viaMw then do
-      let (r, v) ← loadView cfg r (presentedId cfg q)
-      pure { r with mw := some v, cur := .mw }
-    else pure r)
-  let r ← specScript cfg q.viaMw q true r q.script o.acts
-  -- middleware: auto-save unless destroyed, and the reply carries the id
-  let r ← (match r.mw with
-    | some v =>
-      if r.mwDestroyed then pure r
-      else do
-        let (r, v) := saveView cfg { r with cur := .mw } v
-        let carried := if cfg.source = .header then o.outHd = some v.id else o.outCk = some (some v.id)
-        if !carried then throw "reply-does-not-carry-session-id"
-        pure r
-    | none => pure r)
-  let s := r.s
+/-- the request starts: behind the middleware the session the request presents is loaded -/
+def specStart (cfg : Cfg) (s : SpecSt) (q : Req) (gens : List Bytes) : Except String SReq :=
+  let r : SReq := { s := s, gens := gens }
+  if q.viaMw then do
+    let (r, v) ← loadView cfg r (presentedId cfg q)
+    pure { r with mw := some v, cur := .mw }
+  else pure r
+
+/-- the request ends: the middleware saves its session unless the handler destroyed it, and the reply
+    carries the id -/
+def specFinish (cfg : Cfg) (r : SReq) (o : Obs) : Except String SReq :=
+  match r.mw with
+  | some v =>
+    if r.mwDestroyed then pure r
+    else
+      let (r, v) := saveView cfg { r with cur := .mw } v
+      let carried := if cfg.source = .header then o.outHd = some v.id else o.outCk = some (some v.id)
+      if !carried then throw "reply-does-not-carry-session-id" else pure r
+  | none => pure r
+
+/-- what must hold of the reply and the storage after the request -/
+def specEnd (s : SpecSt) (o : Obs) : Except String SpecSt := do
   -- ids handed to the client were generated by the server
   match o.outCk with
   | some (some v) => if !(s.issued.contains v) then throw "reply-carries-id-not-issued"
@@ -226,6 +233,14 @@ def specReq (cfg : Cfg) (s : SpecSt) (q : Req) (o : Obs) : Except String SpecSt 
   if !(expect.all o.keys.contains) then throw "saved-session-missing-from-storage"
   return s
 
+/-- one request -/
+def specReq (cfg : Cfg) (s : SpecSt) (q : Req) (o : Obs) : Except String SpecSt := do
+  if o.status ≠ 200 then throw "request-failed"
+  let r ← specStart cfg s q o.gens
+  let r ← specScript cfg q.viaMw q r q.script o.acts
+  let r ← specFinish cfg r o
+  specEnd r.s o
+
 def specRun (cfg : Cfg) : SpecSt → List Op → List (Option Obs) → Option String
   | _, [], _ => none
   | s, .adv d :: ops, _ :: obs => specRun cfg { s with now := s.now + d } ops obs
@@ -234,5 +249,31 @@ def specRun (cfg : Cfg) : SpecSt → List Op → List (Option Obs) → Option St
     | .error e => some e
     | .ok s' => specRun cfg s' ops obs
   | _, _, _ => some "observation-shape"
+
+/-! ### the domain of the oracle, syntactically (see Domain.lean: inside it the oracle never answers
+    `outside-domain`) -/
+
+/-- is the action allowed when `l` (= `store.Get` was already called in this request) and `d` (= `Destroy`
+    was already called in this request)? -/
+def actAllowed (viaMw l d : Bool) : Act → Bool
+  | .storeGet => viaMw || !l
+  | .save => !d
+  | _ => true
+
+def nextL (viaMw l : Bool) : Act → Bool
+  | .storeGet => l || !viaMw
+  | _ => l
+
+def nextD (d : Bool) : Act → Bool
+  | .destroy => true
+  | _ => d
+
+def scriptInDomain (viaMw : Bool) : Bool → Bool → List Act → Bool
+  | _, _, [] => true
+  | l, d, a :: as => actAllowed viaMw l d a && scriptInDomain viaMw (nextL viaMw l a) (nextD d a) as
+
+def Op.inDomain : Op → Bool
+  | .adv _ => true
+  | .req q => scriptInDomain q.viaMw false false q.script
 
 end C15
